@@ -716,4 +716,136 @@ theorem viol_origin {cfg : Cfg} {c : Conf} {k : Viol} {s : St} (h : c.viol cfg k
       exact ⟨c'', hw.trans hs.within, ho⟩
 
 
+/-! ## Syntactic evaluation contexts (same frame) -/
+
+/-- an expression with one hole, in a position of the same frame -/
+inductive Ctx where
+  | hole
+  | tup (pre : List Expr) (C : Ctx) (post : List Expr)
+  | arr (pre : List Expr) (C : Ctx) (post : List Expr)
+  | item (C : Ctx) (i : Nat)
+  | callee (C : Ctx) (args : List Expr)
+  | arg (f : String) (pre : List Expr) (C : Ctx) (post : List Expr)
+  | argE (fe : Expr) (pre : List Expr) (C : Ctx) (post : List Expr)
+
+def plug : Ctx → Expr → Expr
+  | .hole, e => e
+  | .tup pre C post, e => .tup (pre ++ plug C e :: post)
+  | .arr pre C post, e => .arr (pre ++ plug C e :: post)
+  | .item C i, e => .item (plug C e) i
+  | .callee C args, e => .callE (plug C e) args
+  | .arg f pre C post, e => .call f (pre ++ plug C e :: post)
+  | .argE fe pre C post, e => .callE fe (pre ++ plug C e :: post)
+
+/-- `f(□, post…)` is a native that evaluates its first argument itself: `if/3`, `and/2`, `or/2`,
+`if_error/2`, `is_error/1`, `display/1` -/
+def SpecialFirst (f : String) (post : List Expr) : Prop :=
+  (f = "if" ∧ ∃ a b, post = [a, b]) ∨ ((f = "and" ∨ f = "or" ∨ f = "if_error") ∧ ∃ b, post = [b]) ∨
+  ((f = "is_error" ∨ f = "display") ∧ post = [])
+
+theorem SpecialFirst.sub {f : String} {post : List Expr} (h : SpecialFirst f post) (cfg : Cfg) (n : Nat) (fr : Frame)
+    (a : Expr) (tail : Bool) (st : St) :
+    Sub cfg (.eval n fr a false st) (.builtin (n + 1) fr f (a :: post) tail st) := by
+  rcases h with ⟨rfl, x, y, rfl⟩ | ⟨rfl | rfl | rfl, x, rfl⟩ | ⟨rfl | rfl, rfl⟩
+  · exact .ifCond ..
+  · exact .andFirst ..
+  · exact .orFirst ..
+  · exact .ifErrorFirst ..
+  · exact .isErrorArg ..
+  · exact .displayArg ..
+
+theorem within_call_native {cfg : Cfg} {fr : Frame} {f : String} (h : fr.get f = none) (n : Nat)
+    (args : List Expr) (tail : Bool) (st : St) :
+    Within cfg (.builtin n fr f args tail st) (.eval (n + 2) fr (.call f args) tail st) := by
+  obtain ⟨_, hs⟩ := Frame.get_none h
+  refine .step (Sub.nativeCall n fr f args tail st h).within (Sub.namedCall (n + 1) fr f args tail st ?_)
+  intro sn sc hself
+  have : f ≠ sn := fun hh => hs sn sc hself hh.symm
+  simp [this]
+
+theorem within_call_bound {cfg : Cfg} {fr : Frame} {g : String} {c : Val} (h : lookup g fr.env = some c) (n : Nat)
+    (args : List Expr) (tail : Bool) (st : St) :
+    Within cfg (.callVal n fr c args tail st) (.eval (n + 2) fr (.call g args) tail st) := by
+  have hg : fr.get g = some c := by simp [Frame.get, h]
+  refine .step (Sub.boundCall n fr g args tail st c hg).within (Sub.namedCall (n + 1) fr g args tail st ?_)
+  intro sn sc _
+  simp [h]
+
+/-- `Reaches cfg fr C F tail st n tl s`: evaluating `plug C e` with fuel `F`, tail flag `tail`, from
+state `st` evaluates the hole's expression `e` with fuel `n`, tail flag `tl`, in state `s` (whatever
+`e` is): every item/argument before the hole evaluates to a non-error value, a short-circuit
+native selects the hole, … -/
+inductive Reaches (cfg : Cfg) (fr : Frame) : Ctx → Nat → Bool → St → Nat → Bool → St → Prop
+  | hole (F tl st) : Reaches cfg fr .hole F tl st F tl st
+  | tup {k pre post C st vs st1 n tl s} (tail : Bool) : SeqVals cfg fr (k + 1 + pre.length) pre st vs st1 →
+      Reaches cfg fr C k false st1 n tl s → Reaches cfg fr (.tup pre C post) (k + 1 + pre.length + 1) tail st n tl s
+  | arr {k pre post C st vs st1 n tl s} (tail : Bool) : SeqVals cfg fr (k + 1 + pre.length) pre st vs st1 →
+      Reaches cfg fr C k false st1 n tl s → Reaches cfg fr (.arr pre C post) (k + 1 + pre.length + 1) tail st n tl s
+  | item {C F st n tl s} (i : Nat) (tail : Bool) : Reaches cfg fr C F false st n tl s →
+      Reaches cfg fr (.item C i) (F + 1) tail st n tl s
+  | callee {C F st n tl s} (args : List Expr) (tail : Bool) : Reaches cfg fr C F false st n tl s →
+      Reaches cfg fr (.callee C args) (F + 1) tail st n tl s
+  | strictArg {f k pre post C st vs st1 n tl s} (tail : Bool) : isStrictPrim f = true → fr.get f = none →
+      SeqVals cfg fr (k + 1 + pre.length) pre st vs st1 → Reaches cfg fr C k false st1 n tl s →
+      Reaches cfg fr (.arg f pre C post) (k + 1 + pre.length + 3) tail st n tl s
+  | userArg {g fn d env k pre post C st vs st1 n tl s} (tail : Bool) : lookup g fr.env = some (.clos fn d env) →
+      SeqVals cfg fr (k + 1 + pre.length) pre st vs st1 → Reaches cfg fr C k false st1 n tl s →
+      Reaches cfg fr (.arg g pre C post) (k + 1 + pre.length + 3) tail st n tl s
+  | tailArg {g sc k pre post C st vs st1 n tl s} : fr.self = some (g, sc) → lookup g fr.env = none → cfg.tco = true →
+      SeqVals cfg fr (k + 1 + pre.length) pre st vs st1 → Reaches cfg fr C k false st1 n tl s →
+      Reaches cfg fr (.arg g pre C post) (k + 1 + pre.length + 1) true st n tl s
+  | calleeArg {fe fn d env k pre post C st0 st vs st1 n tl s} (tail : Bool) :
+      eval (k + 1 + pre.length + 1) cfg fr fe false st0 = (.val (.clos fn d env), st) →
+      SeqVals cfg fr (k + 1 + pre.length) pre st vs st1 → Reaches cfg fr C k false st1 n tl s →
+      Reaches cfg fr (.argE fe pre C post) (k + 1 + pre.length + 2) tail st0 n tl s
+  | specialFirst {f post C F st n tl s} (tail : Bool) : SpecialFirst f post → fr.get f = none →
+      Reaches cfg fr C F false st n tl s → Reaches cfg fr (.arg f [] C post) (F + 3) tail st n tl s
+  | ifThen {c b C F tail st st1 n tl s} : fr.get "if" = none → eval F cfg fr c false st = (.val (.bool true), st1) →
+      Reaches cfg fr C F tail st1 n tl s → Reaches cfg fr (.arg "if" [c] C [b]) (F + 3) tail st n tl s
+  | ifElse {c a C F tail st st1 n tl s} : fr.get "if" = none → eval F cfg fr c false st = (.val (.bool false), st1) →
+      Reaches cfg fr C F tail st1 n tl s → Reaches cfg fr (.arg "if" [c, a] C []) (F + 3) tail st n tl s
+  | andSecond {c C F tail st st1 n tl s} : fr.get "and" = none → eval F cfg fr c false st = (.val (.bool true), st1) →
+      Reaches cfg fr C F tail st1 n tl s → Reaches cfg fr (.arg "and" [c] C []) (F + 3) tail st n tl s
+  | orSecond {c C F tail st st1 n tl s} : fr.get "or" = none → eval F cfg fr c false st = (.val (.bool false), st1) →
+      Reaches cfg fr C F tail st1 n tl s → Reaches cfg fr (.arg "or" [c] C []) (F + 3) tail st n tl s
+  | ifErrorSecond {c m C F tail st st1 n tl s} : fr.get "if_error" = none →
+      eval F cfg fr c false st = (.val (.err m), st1) →
+      Reaches cfg fr C F tail st1 n tl s → Reaches cfg fr (.arg "if_error" [c] C []) (F + 3) tail st n tl s
+
+theorem Reaches.within {cfg : Cfg} {fr : Frame} {C : Ctx} {F n : Nat} {tail tl : Bool} {st s : St}
+    (h : Reaches cfg fr C F tail st n tl s) (e : Expr) :
+    Within cfg (.eval n fr e tl s) (.eval F fr (plug C e) tail st) := by
+  induction h with
+  | hole => exact .refl _
+  | tup tail hpre _ ih =>
+    exact .step (ih.trans (within_list_item _ _ hpre)) (Sub.tupItems ..)
+  | arr tail hpre _ ih =>
+    exact .step (ih.trans (within_list_item _ _ hpre)) (Sub.arrItems ..)
+  | item i tail _ ih => exact .step ih (Sub.itemOf ..)
+  | callee args tail _ ih => exact .step ih (Sub.callee ..)
+  | strictArg tail hf hfree hpre _ ih =>
+    exact ((ih.trans (within_list_item _ _ hpre)).step (Sub.strictArgs _ _ _ _ tail _ hf)).trans
+      (within_call_native hfree _ _ _ _)
+  | userArg tail hg hpre _ ih =>
+    exact ((ih.trans (within_list_item _ _ hpre)).step (Sub.callArgs _ _ _ _ _ _ tail _)).trans
+      (within_call_bound hg _ _ _ _)
+  | tailArg hself hfree htco hpre _ ih =>
+    exact (ih.trans (within_list_item _ _ hpre)).step (Sub.tailArgs _ _ _ _ _ _ hself hfree htco)
+  | calleeArg tail hfe hpre _ ih =>
+    exact ((ih.trans (within_list_item _ _ hpre)).step (Sub.callArgs _ _ _ _ _ _ tail _)).step
+      (Sub.calleeCall _ _ _ _ _ _ _ _ hfe rfl)
+  | specialFirst tail hsp hfree _ ih =>
+    exact (ih.step (hsp.sub cfg _ fr _ tail _)).trans (within_call_native hfree _ _ _ _)
+  | ifThen hfree hc _ ih =>
+    exact (ih.step (Sub.ifBranch _ _ _ _ _ _ _ true _ hc)).trans (within_call_native hfree _ _ _ _)
+  | ifElse hfree hc _ ih =>
+    exact (ih.step (Sub.ifBranch _ _ _ _ _ _ _ false _ hc)).trans (within_call_native hfree _ _ _ _)
+  | andSecond hfree hc _ ih =>
+    exact (ih.step (Sub.andSecond _ _ _ _ _ _ _ hc)).trans (within_call_native hfree _ _ _ _)
+  | orSecond hfree hc _ ih =>
+    exact (ih.step (Sub.orSecond _ _ _ _ _ _ _ hc)).trans (within_call_native hfree _ _ _ _)
+  | ifErrorSecond hfree hc _ ih =>
+    exact (ih.step (Sub.ifErrorSecond _ _ _ _ _ _ _ _ hc)).trans (within_call_native hfree _ _ _ _)
+
+
 end XrayModel.Core
